@@ -1,2 +1,64 @@
--- placeholder driver (model for C19 not built yet)
-def main : IO Unit := pure ()
+/-
+  Driver for the URI model (C19).  Text = comma separated code points ("-" = empty).
+    p <nsPort> <text> <perm>      parse with the extracted guards (Gen.C19); <perm> = comma separated indices
+                                  into the ascending tag list giving the iteration order used by str() ("-" = ascending)
+      →  ok proto=<text> obj=s:<text>|m:<text>;<text>;… sock=<text|N> host=<text|N> port=<int|N> loc=<text|N> str=<text>
+       | err <kind>
+    e <nsPort> <text> <text>      parse both, compare   →  eq 0|1 | err
+    i <text>                      int(text)              →  ok <int> | err
+-/
+import PyroModel.Uri
+import PyroModel.Gen.C19
+import Driver.Util
+
+open Pyro Pyro.Uri Driver
+
+def guards : Guards := ⟨Pyro.Gen.C19.guardHost, Pyro.Gen.C19.guardTags⟩
+
+def showText (t : Text) : String := natListToString t
+
+def showOpt (t : Option Text) : String :=
+  match t with
+  | none => "N"
+  | some x => showText x
+
+def showErr : Err → String
+  | .invalid => "invalid" | .protocol => "protocol" | .location => "location" | .brackets => "brackets"
+  | .ipv6 => "ipv6" | .port => "port" | .metadata => "metadata"
+
+def showObj : ObjVal → String
+  | .str t => "s:" ++ showText t
+  | .set ts => "m:" ++ ";".intercalate (ts.map showText)
+
+def applyPerm (tags : List Text) (perm : List Nat) : List Text :=
+  if perm.isEmpty then tags
+  else perm.filterMap (fun i => tags[i]?)
+
+def step : List String → String
+  | ["p", port, txt, perm] =>
+    match port.toNat?, parseNatList txt, parseNatList perm with
+    | some np, some s, some pm =>
+      match parse guards np s with
+      | .error e => "err " ++ showErr e
+      | .ok u =>
+        let st := getstate u
+        let order := applyPerm u.tagOrder pm
+        let portS := match st.port with | none => "N" | some p => toString p
+        s!"ok proto={showText st.protocol} obj={showObj st.object} sock={showOpt st.sockname} host={showOpt st.host} port={portS} loc={showOpt (renderLoc u.loc)} str={showText (render u order)}"
+    | _, _, _ => "bad-op"
+  | ["e", port, a, b] =>
+    match port.toNat?, parseNatList a, parseNatList b with
+    | some np, some s1, some s2 =>
+      match parse guards np s1, parse guards np s2 with
+      | .ok u, .ok v => if eqUri u v then "eq 1" else "eq 0"
+      | _, _ => "err"
+    | _, _, _ => "bad-op"
+  | ["i", txt] =>
+    match parseNatList txt with
+    | some s => match pyInt s with
+      | some n => s!"ok {n}"
+      | none => "err"
+    | none => "bad-op"
+  | _ => "bad-op"
+
+def main : IO Unit := runDriver step
